@@ -19,6 +19,52 @@ def _close(ops):
     return out
 
 
+def recipe_variants(rec):
+    for li in range(len(rec["langs"])):
+        if len(rec["langs"]) > 1:
+            r = copy.deepcopy(rec)
+            del r["langs"][li]
+            yield r
+    for li, l in enumerate(rec["langs"]):
+        for ci in range(len(l["captions"])):
+            if len(l["captions"]) > 1:
+                r = copy.deepcopy(rec)
+                del r["langs"][li]["captions"][ci]
+                yield r
+        for ci, c in enumerate(l["captions"]):
+            for ni in range(len(c["nodes"])):
+                if len(c["nodes"]) > 1:
+                    r = copy.deepcopy(rec)
+                    del r["langs"][li]["captions"][ci]["nodes"][ni]
+                    yield r
+            for ni, n in enumerate(c["nodes"]):
+                if n.get("layout") is not None:
+                    r = copy.deepcopy(rec)
+                    r["langs"][li]["captions"][ci]["nodes"][ni]["layout"] = None
+                    yield r
+            if c.get("layout") is not None:
+                r = copy.deepcopy(rec)
+                r["langs"][li]["captions"][ci]["layout"] = None
+                yield r
+            if c.get("style", "default") != "default":
+                r = copy.deepcopy(rec)
+                r["langs"][li]["captions"][ci]["style"] = "default"
+                yield r
+        if l.get("layout") is not None:
+            r = copy.deepcopy(rec)
+            r["langs"][li]["layout"] = None
+            yield r
+    if rec.get("layout") is not None:
+        r = copy.deepcopy(rec)
+        r["layout"] = None
+        yield r
+    if rec.get("styles", "default") != "default":
+        r = copy.deepcopy(rec)
+        r["styles"] = "default"
+        yield r
+
+
+
 class Minimiser:
     def __init__(self, ev, plan, verdict, budget_s=60.0):
         self.ev = ev
@@ -121,49 +167,7 @@ class Minimiser:
             if ops[i]["kind"] != "build":
                 continue
 
-            def variants(rec):
-                for li in range(len(rec["langs"])):
-                    if len(rec["langs"]) > 1:
-                        r = copy.deepcopy(rec)
-                        del r["langs"][li]
-                        yield r
-                for li, l in enumerate(rec["langs"]):
-                    for ci in range(len(l["captions"])):
-                        if len(l["captions"]) > 1:
-                            r = copy.deepcopy(rec)
-                            del r["langs"][li]["captions"][ci]
-                            yield r
-                    for ci, c in enumerate(l["captions"]):
-                        for ni in range(len(c["nodes"])):
-                            if len(c["nodes"]) > 1:
-                                r = copy.deepcopy(rec)
-                                del r["langs"][li]["captions"][ci]["nodes"][ni]
-                                yield r
-                        for ni, n in enumerate(c["nodes"]):
-                            if n.get("layout") is not None:
-                                r = copy.deepcopy(rec)
-                                r["langs"][li]["captions"][ci]["nodes"][ni]["layout"] = None
-                                yield r
-                        if c.get("layout") is not None:
-                            r = copy.deepcopy(rec)
-                            r["langs"][li]["captions"][ci]["layout"] = None
-                            yield r
-                        if c.get("style", "default") != "default":
-                            r = copy.deepcopy(rec)
-                            r["langs"][li]["captions"][ci]["style"] = "default"
-                            yield r
-                    if l.get("layout") is not None:
-                        r = copy.deepcopy(rec)
-                        r["langs"][li]["layout"] = None
-                        yield r
-                if rec.get("layout") is not None:
-                    r = copy.deepcopy(rec)
-                    r["layout"] = None
-                    yield r
-                if rec.get("styles", "default") != "default":
-                    r = copy.deepcopy(rec)
-                    r["styles"] = "default"
-                    yield r
+            variants = recipe_variants
 
             progress = True
             while progress and time.time() < self.deadline:
